@@ -59,6 +59,7 @@ class Ctx:
         self.obligations = []       # (name, ok, detail)
         self.fails = []             # oracle failures: dict(sig=..., ...)
         self.broken = []            # broken obligations (proof / fact / correspondence)
+        self.advisories = []        # drifted advisory facts (trigger the widened search, never an alarm)
         self.coverage = {}
         self.assumptions = []
         self.trusted = []
@@ -95,6 +96,35 @@ class Ctx:
         if rc == 0 and not race:
             self.hx = out
         return out if rc == 0 else None
+
+    def gofacts(self):
+        """Build harness/cmd/gofacts once per run (source-level fact extractor / translator)."""
+        if getattr(self, "_gofacts", None):
+            return self._gofacts
+        out = os.path.join(self.work, "gofacts")
+        rc, log = sh(["go", "build"] + self._modfile_args() + ["-o", out, "./cmd/gofacts"], cwd=HARNESS, env=GOENV,
+                     timeout=900)
+        self.oblige("fact extractor harness/cmd/gofacts builds", rc == 0, log[-2000:])
+        self._gofacts = out if rc == 0 else None
+        return self._gofacts
+
+    def callseq(self, pkg, func, methods, funcs=()):
+        """Source-order sequence of the selected method calls made by `func` of
+        package directory `pkg` of the repository under test, same-package
+        callees inlined transitively, receivers named by declared type (see
+        harness/cmd/gofacts/callseq.go).  Robust against renaming locals,
+        extracting / inlining helpers, loop-form changes.  None on failure."""
+        g = self.gofacts()
+        if not g:
+            return None
+        rc, out = sh([g, "callseq", "-repo", REPO, "-pkg", pkg, "-func", func, "-methods", ",".join(methods),
+                      "-funcs", ",".join(funcs)], timeout=120)
+        if rc != 0:
+            return "gofacts callseq failed: " + out[-300:]
+        try:
+            return json.loads(out.strip().split("\n")[-1])
+        except ValueError:
+            return "gofacts callseq: unparsable output " + out[-200:]
 
     def lake(self, targets, timeout=3000):
         """lake build under the project lock."""
@@ -249,6 +279,27 @@ class Ctx:
         self.oblige("fact %s" % name, got == want,
                     "expected %s\n     got %s" % (json.dumps(want, sort_keys=True), json.dumps(got, sort_keys=True)))
 
+    def advise(self, name, got, want):
+        """Advisory source-text fact: a purely syntactic expectation about the
+        code whose drift does NOT by itself say anything about the property (a
+        harmless rewrite changes it) and whose semantic content is covered by a
+        correspondence or oracle of the same check.  A drift is recorded in the
+        evidence and makes the check run its widened search (`ctx.widen`); it is
+        never a broken obligation and never raises an alarm."""
+        ok = got == want
+        self.advisories.append({"advisory": name, "drifted": not ok,
+                                "detail": "" if ok else clip("expected %s\n     got %s" % (
+                                    json.dumps(want, sort_keys=True), json.dumps(got, sort_keys=True)), 2000)})
+        if not ok:
+            print("ADVISORY-DRIFT: %s (widening the search)" % name)
+        return ok
+
+    @property
+    def widen(self):
+        """True when the check should run its widened search: an obligation is
+        broken or an advisory fact drifted, and no failing input is known yet."""
+        return bool(self.broken or any(a["drifted"] for a in self.advisories)) and not self.fails
+
     def is_known(self, f):
         for k in self.known:
             if k.get("status", "known") != "known":
@@ -308,6 +359,7 @@ class Ctx:
             "samples": self.samples or [{"note": "no samples"}],
             "explanation": explanation,
             "known_findings_seen": sorted(seen_known.keys()),
+            "advisories": self.advisories,
             "programs": cov.get("programs", self.evaluations),
             "disagreements_checked": cov.get("disagreements_checked", 0),
         })
